@@ -1097,6 +1097,28 @@ class Tr:
             if bp or tp != "bool":
                 raise Unsupported("closure body with checks")
             return b0, "(%s (fun %s => %s) %s)" % ("existsb" if m == "any" else "forallb", x, ap, paren(a0)), "bool"
+        if m == "map_or" and len(args) == 2 and args[1][0] == "closure" and len(args[1][1]) == 1 \
+                and recv[0] == "mcall" and recv[2] == "position" and len(recv[3]) == 1 and recv[3][0][0] == "closure" \
+                and len(recv[3][0][1]) == 1 and recv[1][0] == "mcall" and recv[1][2] == "iter" and not recv[1][3]:
+            # xs.iter().position(|&x| p).map_or(d, |n| e)
+            b0, a0, t0 = self.ex(f, recv[1][1], env)
+            if not (isinstance(t0, tuple) and t0[0] in ("slice", "arr")):
+                raise Unsupported(".iter() on a non-slice")
+            x = recv[3][0][1][0]
+            env2 = dict(env)
+            env2[x] = (x, "u64")
+            bp, ap, tp = self.ex(f, recv[3][0][2], env2, "bool")
+            if bp or tp != "bool":
+                raise Unsupported("closure body with checks")
+            bd, ad, td = self.ex(f, args[0], env, want)
+            n = args[1][1][0]
+            env3 = dict(env)
+            env3[n] = (n, "usize")
+            bn, an, tn = self.ex(f, args[1][2], env3, td if td != "lit" else want)
+            f.impure = True
+            v = f.fresh()
+            return b0 + bd + ["do %s <- (match iter_position (fun %s => %s) %s with None => Val %s | Some %s => %s Val %s end) ;"
+                              % (v, x, ap, paren(a0), paren(ad), n, " ".join(bn), paren(an))], v, tn
         br, ar, tr_ = self.ex(f, recv, env, want if m.startswith("wrapping_") else None)
         if m == "is_empty" and isinstance(tr_, tuple) and tr_[0] == "slice":
             return br, "(lenZ %s =? 0)" % paren(ar), "bool"
@@ -1141,6 +1163,10 @@ class Tr:
             return br + b, "(%s %s %s)" % (fn, paren(ar), paren(a)), ("tuple", [tr_, "bool"])
         if m == "leading_zeros" and tr_ == "u64":
             return br, "(clz64 %s)" % paren(ar), "u32"
+        if m == "trailing_zeros" and tr_ == "u64":
+            return br, "(ctz64 %s)" % paren(ar), "u32"
+        if m == "trailing_ones" and tr_ == "u64":
+            return br, "(ctz64 (B - 1 - %s))" % paren(ar), "u32"
         if m == "count_ones" and tr_ == "u64":
             return br, "(popcnt64 %s)" % paren(ar), "u32"
         if m in ("high", "low", "split") and tr_ == "u128":
@@ -1845,6 +1871,8 @@ TARGETS = [
     ("src/bits.rs", UINT_IMPL, "not", "U.not", "g_not", "uint"),
     ("src/bits.rs", UINT_IMPL, "count_ones", "U.count_ones", "g_count_ones", "uint"),
     ("src/bits.rs", UINT_IMPL, "count_zeros", "U.count_zeros", "g_count_zeros", "uint"),
+    ("src/bits.rs", UINT_IMPL, "trailing_zeros", "U.trailing_zeros", "g_trailing_zeros", "uint"),
+    ("src/bits.rs", UINT_IMPL, "trailing_ones", "U.trailing_ones", "g_trailing_ones", "uint"),
     ("src/bits.rs", UINT_IMPL, "leading_zeros", "U.leading_zeros", "g_leading_zeros", "uint"),
     ("src/bits.rs", UINT_IMPL, "leading_ones", "U.leading_ones", "g_leading_ones", "uint"),
     ("src/bits.rs", UINT_IMPL, "bit_len", "U.bit_len", "g_bit_len", "uint"),
